@@ -14,7 +14,7 @@ MANIFEST = {
           'counters must add up and nothing stored may vanish.',
   'note': 'Static partial-order reduction: only writer.py lines mentioning the cache/reactor/sleep are scheduling '
           'points (the others touch writer-local state or the backend double, which only the writer uses); the '
-          'thorough tier re-runs with every writer line visible at preemption bound 1. Trusted: verifmem double.',
+          'thorough tier re-runs with every writer line visible at preemption bound 1. Trusted: verifmem double. The reactor thread\'s instrumentation tick (real recordMetrics) races the writer: reported + residual counters must equal what was counted; an empty-named series; an update limit below 1/s.',
 }
 
 QUICK_STRATS = ('sorted', 'bucketmax', 'timesorted')
